@@ -445,6 +445,56 @@ fn gen_vsign(ctx: &mut Ctx) {
         }
         ctx.case(format!("VS {} {} {}", own, str_style(style), hist.join(" ")), true, "random-walk");
     }
+    // configuration blocks carrying a supported (family, id) but arbitrary other fields (every single-byte variation
+    // of the 11 real blocks over boundary values), each followed by a short pixel transfer and a flush
+    for i in 0..11usize {
+        let real = SIGN_TYPES[i].to_bytes().to_vec();
+        let mut vi = 0usize;
+        for pos in 2..16usize {
+            for v in [0u8, 1, 0x10, 0x7F, 0x80, 0xFF] {
+                vi += 1;
+                if real[pos] == v || (!thorough && (pos + vi + i) % 3 != 0) {
+                    continue;
+                }
+                let mut b = real.clone();
+                b[pos] = v;
+                let own = 3u16;
+                let line = format!(
+                    "VSL {} A RO.{}.RCF SD.0.{} DC.1 QS.{} RO.{}.RPX SD.0.{} SD.16.{} DC.2 QS.{} PC.{} QS.{}",
+                    own, own, hex_of_bytes(&b), own, own, chunk(16, pos), chunk(16, vi), own, own, own
+                );
+                let res = ctx.case(line.clone(), true, "varied-real-config-block");
+                ctx.monitor(!res.contains("PANIC"), "C12-no-panic", &line, &res);
+            }
+        }
+    }
+    // several pages in one transfer, including pages that share an id: every complete page is stored, in arrival order
+    for (ti, idsets) in [(2usize, vec![vec![0u8, 0, 0], vec![7, 3, 7], vec![1, 1]]), (5, vec![vec![5, 6, 5, 6], vec![9, 9]]), (3, vec![vec![2, 2, 3]])] {
+        for ids in idsets {
+            for style in ["M", "A"] {
+                let (w, h) = SIGN_SIZES[ti];
+                let total = total_bytes(w as u64, h as u64) as usize;
+                let mut msgs = vec!["RO.3.RCF".to_string(), format!("SD.0.{}", hex_of_bytes(SIGN_TYPES[ti].to_bytes())), "DC.1".to_string(), "RO.3.RPX".to_string()];
+                let mut n = 0;
+                for (pi, id) in ids.iter().enumerate() {
+                    let mut page: Vec<u8> = (0..total).map(|x| ((x * 5 + pi * 31 + 1) & 255) as u8).collect();
+                    page[0] = *id;
+                    for (k, c) in page.chunks(16).enumerate() {
+                        msgs.push(format!("SD.{}.{}", k * 16, hex_of_bytes(c)));
+                        n += 1;
+                    }
+                }
+                msgs.push(format!("DC.{}", n));
+                msgs.push("QS.3".to_string());
+                msgs.push("PC.3".to_string());
+                msgs.push("QS.3".to_string());
+                let line = format!("VSL 3 {} {}", style, msgs.join(" "));
+                let res = ctx.case(line.clone(), true, "pages-sharing-an-id");
+                let stored = res.split(" # ").nth(1).map(|s| if s == "-" { 0 } else { s.split('+').count() }).unwrap_or(0);
+                ctx.monitor(stored == ids.len(), "C13-state-machine", &line[..line.len().min(400)], &format!("{} pages sent, {} stored", ids.len(), stored));
+            }
+        }
+    }
     // the 16-bit chunk counter: a transfer longer than 65535 chunks
     if thorough {
         let mut msgs = vec!["RO.3.RCF".to_string(), format!("SD.0.{}", config_blocks()[2].0), "DC.1".to_string(), "RO.3.RPX".to_string()];
@@ -470,17 +520,23 @@ fn gen_c14(ctx: &mut Ctx) {
     let all_addrs = [3u16, 5, 0x7F, 0xFFFF];
     for wk in 0..walks {
         let k = 1 + (wk % 4);
-        let addrs: Vec<u16> = all_addrs[..k].to_vec();
+        // every third walk uses addresses that coincide with data-frame header values (chunk offsets 0/16, counts 1/2)
+        let addrs: Vec<u16> = if wk % 3 == 2 { [16u16, 1, 0, 2][..k].to_vec() } else { all_addrs[..k].to_vec() };
         let styles: Vec<PageFlipStyle> = (0..k).map(|i| if (wk / 4 + i) % 2 == 0 { PageFlipStyle::Manual } else { PageFlipStyle::Automatic }).collect();
         let signs: Vec<VirtualSign<'static>> = (0..k).map(|i| VirtualSign::new(Address(addrs[i]), styles[i])).collect();
         let mut bus = VirtualSignBus::new(signs);
+        // One solo twin per sign, fed only what the property says may concern that sign: messages carrying its
+        // address, and unaddressed data while the twin itself is receiving.  Each sign on the shared bus must stay
+        // observably equal to its twin for the whole history (so hidden state picked up from foreign traffic
+        // shows as soon as it has an effect).
+        let mut twins: Vec<VirtualSign<'static>> = (0..k).map(|i| VirtualSign::new(Address(addrs[i]), styles[i])).collect();
         let absent = [9u16, 0];
         let mut hist: Vec<String> = vec![];
         let head: String = (0..k).map(|i| format!("{} {}", addrs[i], str_style(styles[i]))).collect::<Vec<_>>().join(" ");
         let blocks = config_blocks();
         let mut failed = false;
         for _ in 0..steps {
-            let target = if rng.chance(1, 8) { *rng.pick(&absent) } else { *rng.pick(&addrs) };
+            let target = if rng.chance(1, 8) { *rng.pick(&absent).max(&if addrs.contains(&0) { 9 } else { 0 }) } else { *rng.pick(&addrs) };
             let ti = addrs.iter().position(|a| *a == target);
             let m: String = match rng.below(12) {
                 0 => format!("HE.{}", target),
@@ -587,6 +643,24 @@ fn gen_c14(ctx: &mut Ctx) {
                     }
                 }
             }
+            // twins
+            for i in 0..k {
+                let tst = twins[i].state();
+                let deliver = match addressed {
+                    Some(a) => a == addrs[i],
+                    None => matches!(msg, Message::SendData(_, _) | Message::DataChunksSent(_)) && (tst == State::ConfigInProgress || tst == State::PixelsInProgress),
+                };
+                if deliver {
+                    let tr = guarded(|| twins[i].process_message(&msg));
+                    if addressed == Some(addrs[i]) && tr.as_ref().map(|x| x != &reply).unwrap_or(true) && verdict.is_none() {
+                        verdict = Some(format!("sign {} on the shared bus replied {} but alone (seeing only its own traffic) it replies {}", addrs[i], str_omsg(&reply), tr.map(|x| str_omsg(&x)).unwrap_or_else(|| "PANIC".to_string())));
+                    }
+                }
+                let s = bus.sign(i);
+                if (s.state() != twins[i].state() || s.sign_type() != twins[i].sign_type() || s.pages() != twins[i].pages()) && verdict.is_none() {
+                    verdict = Some(format!("sign {} differs from its solo twin after this message: bus {} / twin {}", addrs[i], obs(s), obs(&twins[i])));
+                }
+            }
             ctx.monitor(verdict.is_none(), "C14-isolation", &line, verdict.as_deref().unwrap_or(""));
             if verdict.is_some() {
                 failed = true;
@@ -649,6 +723,29 @@ fn c11_monitor(op: &str, own: u16, trace: &[Message<'static>], script: &[Reply],
     if outcome == "BUS" && !matches!(script.get(trace.len().wrapping_sub(1)), Some(Reply::BusErr)) {
         return Some("outcome is a bus error but the last consumed reply is not one".to_string());
     }
+    // fail-stop on a reply the protocol does not allow at that point.  Two points are unambiguous whatever the
+    // operation: data / count / pixels-complete / goodbye are answered by silence only, and an operation request
+    // only by this sign's acknowledgement of that very operation.  Anything else there (from any address) ends
+    // the call at once with a protocol error.
+    for (i, r) in script[..consumed].iter().enumerate() {
+        let rep = match r {
+            Reply::Rep(x) => x,
+            Reply::BusErr => continue,
+        };
+        let allowed = match &trace[i] {
+            Message::SendData(..) | Message::DataChunksSent(_) | Message::PixelsComplete(_) | Message::Goodbye(_) => rep.is_none(),
+            Message::RequestOperation(a, o) => *rep == Some(Message::AckOperation(*a, *o)),
+            _ => true,
+        };
+        if !allowed {
+            if i + 1 != trace.len() {
+                return Some(format!("{} messages were sent after the disallowed reply to message {} ({})", trace.len() - i - 1, i, str_msg(&trace[i])));
+            }
+            if outcome != "PROTO" {
+                return Some(format!("disallowed reply to message {} ({}) but outcome {}", i, str_msg(&trace[i]), outcome));
+            }
+        }
+    }
     let kind = &op[..3];
     if kind == "CFG" || kind == "CIN" || kind == "SND" {
         let (recv_op, success, failure) = if kind == "SND" {
@@ -708,6 +805,12 @@ fn dfs(ctx: &mut Ctx, op: &str, own: u16, alpha: &[String], script: &mut Vec<Str
     ctx.monitor(v.is_none(), "C11-invariants", &line, v.as_deref().unwrap_or(""));
     ctx.monitor(!after_err, "C11-fail-stop", &line, "bus called again after an error");
     if outcome != "BLOCKED" {
+        return;
+    }
+    // No operation explored here needs more than ~25 replies on the unchanged code (3 attempts x (request, chunks,
+    // count, query) + reset + polling budget).  An implementation that keeps asking beyond that has already been
+    // compared (and found different) at every shallower prefix; do not follow it into an unbounded conversation.
+    if script.len() >= 48 {
         return;
     }
     for letter in alpha {
@@ -903,6 +1006,40 @@ fn c09_monitor(own: u16, recv_op: Operation, items: &[Vec<u8>], trace: &[Message
     None
 }
 
+/// A bus that records what it is sent and asks a closure for each reply (one run instead of one per reply).
+struct CoopBus {
+    trace: Vec<Message<'static>>,
+    script: Vec<String>,
+    decide: Box<dyn FnMut(&[Message<'static>]) -> Option<String>>,
+    limit: usize,
+}
+#[derive(Debug)]
+struct CoopEnd;
+impl std::fmt::Display for CoopEnd {
+    fn fmt(&self, f: &mut std::fmt::Formatter<'_>) -> std::fmt::Result {
+        write!(f, "cooperative script ended")
+    }
+}
+impl std::error::Error for CoopEnd {}
+impl SignBus for CoopBus {
+    fn process_message<'a>(&mut self, message: Message<'_>) -> Result<Option<Message<'a>>, Box<dyn std::error::Error + Send + Sync>> {
+        self.trace.push(own_msg(&message));
+        if self.script.len() >= self.limit {
+            return Err(Box::new(CoopEnd));
+        }
+        match (self.decide)(&self.trace) {
+            None => Err(Box::new(CoopEnd)),
+            Some(letter) => {
+                self.script.push(letter.clone());
+                match reply_of_str(&letter) {
+                    Reply::BusErr => Err(Box::new(CoopEnd)),
+                    Reply::Rep(r) => Ok(r.map(|m| own_msg(&m))),
+                }
+            }
+        }
+    }
+}
+
 fn recv_op(is_cfg: bool) -> Operation {
     if is_cfg { Operation::ReceiveConfig } else { Operation::ReceivePixels }
 }
@@ -945,53 +1082,75 @@ fn gen_c09(ctx: &mut Ctx) {
             items = vec![bytes_of_hex(p.split('.').nth(2).unwrap()), bytes_of_hex(q.split('.').nth(2).unwrap())];
             pages = vec![p, q];
         }
+        if k % 16 == 9 && !pages.is_empty() {
+            // a page literal whose byte length is NOT the padded page size (ragged tail, too short, a whole chunk too
+            // long): the library must refuse to build it; if it ever does build it, what is sent must still be
+            // exactly the item's bytes in 16-byte chunks
+            let last = pages.len() - 1;
+            let parts: Vec<String> = pages[last].split('.').map(|s| s.to_string()).collect();
+            let mut bytes = bytes_of_hex(&parts[2]);
+            match (k / 16) % 4 {
+                0 => bytes.extend(rng.bytes(4)),
+                1 => bytes.extend(rng.bytes(15)),
+                2 => { bytes.pop(); }
+                _ => bytes.extend(rng.bytes(16)),
+            }
+            pages[last] = format!("{}.{}.{}", parts[0], parts[1], hex_of_bytes(&bytes));
+            items[last] = bytes;
+        }
         let op = if is_cfg {
             items = vec![SIGN_TYPES[t].to_bytes().to_vec()];
             format!("CFG.{}.{}", own, t)
         } else {
             format!("SND.{}.{}", own, if pages.is_empty() { "-".to_string() } else { pages.join("+") })
         };
+        if crate::eval::snd_unconstructible(&op) {
+            ctx.case(format!("CT {} N", op), true, "unconstructible-page");
+            continue;
+        }
         // retry pattern: how many failure reports before success (0..3), plus an occasional deviation
         let fails = rng.below(4);
-        let mut script: Vec<String> = vec![];
-        let mut failures_given = 0;
-        loop {
-            let (trace, outcome, _) = run_ct(&op, &script);
-            if outcome != "BLOCKED" || script.len() > 30000 {
-                break;
-            }
-            let pending = trace.last().unwrap();
-            let letter = match pending {
-                Message::Hello(_) => {
-                    // reset conversation of configure
-                    let prev_finish = trace.len() >= 2 && matches!(trace[trace.len() - 2], Message::RequestOperation(_, Operation::FinishReset));
-                    let prev_start = trace.len() >= 2 && matches!(trace[trace.len() - 2], Message::RequestOperation(_, Operation::StartReset));
-                    if prev_finish {
-                        format!("RS.{}.UNC", own)
-                    } else if prev_start {
-                        format!("RS.{}.RTR", own)
-                    } else {
-                        format!("RS.{}.{}", own, rng.pick(&["UNC", "RTR", "PLD", "CRX"]))
-                    }
-                }
-                Message::QueryState(_) => {
-                    let after_count = trace.len() >= 2 && matches!(trace[trace.len() - 2], Message::DataChunksSent(_));
-                    if after_count {
-                        if failures_given < fails {
-                            failures_given += 1;
-                            format!("RS.{}.{}", own, if is_cfg { "CFL" } else { "PFL" })
+        // one interactive run: the bus decides each cooperative reply when it is asked for it
+        let script: Vec<String> = {
+            let mut r2 = Rng::new(rng.next(), 909);
+            let mut failures_given = 0;
+            let decide = move |trace: &[Message<'static>]| -> Option<String> {
+                let pending = trace.last().unwrap();
+                Some(match pending {
+                    Message::Hello(_) => {
+                        // reset conversation of configure
+                        let prev_finish = trace.len() >= 2 && matches!(trace[trace.len() - 2], Message::RequestOperation(_, Operation::FinishReset));
+                        let prev_start = trace.len() >= 2 && matches!(trace[trace.len() - 2], Message::RequestOperation(_, Operation::StartReset));
+                        if prev_finish {
+                            format!("RS.{}.UNC", own)
+                        } else if prev_start {
+                            format!("RS.{}.RTR", own)
                         } else {
-                            format!("RS.{}.{}", own, if is_cfg { "CRX" } else { "PRX" })
+                            format!("RS.{}.{}", own, r2.pick(&["UNC", "RTR", "PLD", "CRX"]))
                         }
-                    } else {
-                        format!("RS.{}.{}", own, rng.pick(&["PLD", "SHP"]))
                     }
-                }
-                Message::RequestOperation(_, o) => format!("AO.{}.{}", own, str_op(*o)),
-                _ => "N".to_string(),
+                    Message::QueryState(_) => {
+                        let after_count = trace.len() >= 2 && matches!(trace[trace.len() - 2], Message::DataChunksSent(_));
+                        if after_count {
+                            if failures_given < fails {
+                                failures_given += 1;
+                                format!("RS.{}.{}", own, if is_cfg { "CFL" } else { "PFL" })
+                            } else {
+                                format!("RS.{}.{}", own, if is_cfg { "CRX" } else { "PRX" })
+                            }
+                        } else {
+                            format!("RS.{}.{}", own, r2.pick(&["PLD", "SHP"]))
+                        }
+                    }
+                    Message::RequestOperation(_, o) => format!("AO.{}.{}", own, str_op(*o)),
+                    _ => "N".to_string(),
+                })
             };
-            script.push(letter);
-        }
+            let bus = Rc::new(RefCell::new(CoopBus { trace: vec![], script: vec![], decide: Box::new(decide), limit: 30000 }));
+            let _ = run_cop(&op, bus.clone());
+            let b = bus.borrow();
+            b.script.clone()
+        };
         let (trace, _outcome, _) = run_ct(&op, &script);
         let line = format!("CT {} {}", op, script.join(" "));
         ctx.case(line.clone(), true, &format!("{}-fails{}", if is_cfg { "configure" } else { "send_pages" }, fails));
@@ -1081,7 +1240,10 @@ fn gen_c08(ctx: &mut Ctx) {
                 let t = rng.below(11) as usize;
                 let (w, h) = SIGN_SIZES[t];
                 let npages = rng.below(if thorough { 4 } else { 3 }) as usize;
-                let pages: Vec<String> = (0..npages).map(|k| small_page(rng.byte().wrapping_add(k as u8), w, h, &mut rng)).collect();
+                // arbitrary ids: every third list repeats one id (pages that share an id are still distinct pages)
+                let same_id = rng.chance(1, 3);
+                let base_id = rng.byte();
+                let pages: Vec<String> = (0..npages).map(|k| small_page(if same_id { base_id } else { rng.byte().wrapping_add(k as u8) }, w, h, &mut rng)).collect();
                 let pstr = if pages.is_empty() { "-".to_string() } else { pages.join("+") };
                 let use_cin = rng.chance(1, 2);
                 let mut ops: Vec<String> = vec![];
